@@ -7,10 +7,10 @@ return, raise (suppressed or not) or are cancelled at the c-th suspension.
 """
 
 from ..actors import InjectedFault
-from ..loop import PAUSE, Cancel
+from ..loop import PAUSE, CANCEL
 from ..runner import Outcome
 from ..tools import lib
-from .common import set_interrupts, COMPONENTS_BASE, run_sim, new_sim, finish_outcome
+from .common import set_interrupts, COMPONENTS_BASE, COMPONENTS_AIO, run_sim, new_sim, finish_outcome, pick_backend
 
 PID = "C15"
 LEVEL = "exploration"
@@ -24,7 +24,7 @@ RULE = (
     "suppressed), and for generator-based managers every call has a generator of its own. Non-trivial: >=2 calls "
     "overlapped in time or >=2 sequential calls in one task; distinct = distinct (scenario, interleaving)."
 )
-COMPONENTS = COMPONENTS_BASE
+COMPONENTS = COMPONENTS_AIO
 ASSUMPTIONS = [
     "class-based ContextDecorator without _recreate_cm re-uses one instance by documentation; only pairing and routing are judged there",
 ]
@@ -41,13 +41,14 @@ def gen(ch):
     sc.calls = [[ch.weighted([3, 1]) for _ in range(ch.between(1, 3))] for _ in range(sc.ntasks)]  # 0 return 1 raise
     sc.cancel = ch.draw(sc.ntasks) if ch.chance(1, 3) else None
     sc.interrupt = ch.draw(4)
+    sc.backend = pick_backend(ch, 1, 5)
     return sc
 
 
 def execute(st, ctx):
     out = Outcome()
     sc = gen(st.scenario)
-    sim = new_sim(st, interrupts=False)
+    sim = new_sim(st, interrupts=False, backend=sc.backend)
     set_interrupts(sim, (0, 0, 5, 2)[sc.interrupt])
     L = lib()
     log = []
@@ -60,7 +61,7 @@ def execute(st, ctx):
     def tag(exc):
         if exc is None:
             return None
-        if isinstance(exc, Cancel):
+        if isinstance(exc, CANCEL):
             return "cancel"
         return getattr(exc, "tag", type(exc).__name__)
 
@@ -71,11 +72,12 @@ def execute(st, ctx):
             k = counter[0]
             log.append(("enter", k, sim.current.id))
             await pause(sc.susp[0], "enter")
+            log.append(("entered", k, sim.current.id))
             try:
                 yield k
             except BaseException as err:
                 log.append(("exit", k, sim.current.id, tag(err), id(err)))
-                if not isinstance(err, Cancel):
+                if not isinstance(err, CANCEL):
                     await pause(sc.susp[2], "exit")
                 if sc.suppress and isinstance(err, Exception):
                     return
@@ -92,11 +94,12 @@ def execute(st, ctx):
                 k = counter[0]
                 log.append(("enter", k, sim.current.id))
                 await pause(sc.susp[0], "enter")
+                log.append(("entered", k, sim.current.id))
                 return k
 
             async def __aexit__(self, et, ev, tb):
                 log.append(("exit", None, sim.current.id, tag(ev), id(ev) if ev is not None else None))
-                if not isinstance(ev, Cancel):
+                if not isinstance(ev, CANCEL):
                     await pause(sc.susp[2], "exit")
                 return bool(sc.suppress and isinstance(ev, Exception))
 
@@ -124,7 +127,7 @@ def execute(st, ctx):
                 results[call_id] = ("ok", await body(call_id, fails))
             except InjectedFault as err:
                 results[call_id] = ("raised", err)
-            except Cancel:
+            except CANCEL:
                 results[call_id] = ("cancelled", None)
                 raise
             log.append(("returned", call_id, sim.current.id))
@@ -136,7 +139,7 @@ def execute(st, ctx):
     sig = ("generator" if sc.kind == 0 else "class", "suppress" if sc.suppress else "propagate")
 
     def describe():
-        return {"manager": sig[0], "suppress": sc.suppress, "suspensions": sc.susp, "calls": sc.calls,
+        return {"backend": sc.backend, "manager": sig[0], "suppress": sc.suppress, "suspensions": sc.susp, "calls": sc.calls,
                 "cancel": {"task": sc.cancel, "fired_at": sim.cancel_fired_at} if sc.cancel is not None else None,
                 "log": [repr(e[:4]) for e in log], "results": {repr(k): repr(v) for k, v in results.items()},
                 "interleaving": [(t >> 2, ("pause", "sleep", "lock_wait", "done")[t & 3]) for t in sim.trace][:120]}
@@ -168,7 +171,7 @@ def execute(st, ctx):
                     continue
                 if cancelled:
                     # whatever was entered must have been exited, with the cancellation
-                    if "enter" in kinds and kinds.count("exit") != 1 and sim.cancel_fired_at[2] != "enter":
+                    if any(e[0] == "entered" for e in evs) and kinds.count("exit") != 1:
                         out.violate("C15.cancelled_call_not_exited", sig, dict(describe(), call=call_id))
                     continue
                 if kinds != ["enter", "body", "exit"]:
@@ -224,7 +227,7 @@ def execute(st, ctx):
             out.probes["cancel_in_" + where] = 1
     out.probes["class_based" if sc.kind else "generator_based"] = 1
     out.nontrivial = overlap or any(len(p) >= 2 for p in sc.calls)
-    out.shape = (sc.kind, sc.suppress, tuple(sc.susp), tuple(tuple(p) for p in sc.calls), sc.cancel, hash(tuple(sim.trace)))
+    out.shape = (sc.backend, sc.kind, sc.suppress, tuple(sc.susp), tuple(tuple(p) for p in sc.calls), sc.cancel, hash(tuple(sim.trace)))
     if ctx.want_sample:
         out.sample = describe()
     if ctx.want_log:
